@@ -65,7 +65,8 @@ class StreamingDetector(ABC):
                     raise ValueError(
                         "Columns of new data must match with columns of prior data."
                     )
-            ary = X.values
+            # copy, so that the detector never holds a view of the caller's data
+            ary = X.values.copy()
         else:
             ary = copy.copy(X)
             ary = np.array(ary)
@@ -243,7 +244,8 @@ class BatchDetector(ABC):
                     raise ValueError(
                         "Columns of new data must match with columns of prior data."
                     )
-            ary = X.values
+            # copy, so that the detector never holds a view of the caller's data
+            ary = X.values.copy()
         else:
             ary = copy.copy(X)
             ary = np.array(ary)
